@@ -91,11 +91,42 @@ def scale_of(*dgms):
     return math.fsum(abs(x) for d in dgms for p in d for x in p)
 
 
-def w1(A, B):
+STATS = {"w1_reference_persim": 0, "w1_reference_own": 0}
+
+
+def w1_persim(A, B):
     import warnings
     with warnings.catch_warnings():
         warnings.simplefilter("ignore")
         return float(W().wasserstein(arr(A), arr(B)))
+
+
+def w1_own(A, B):
+    """1-Wasserstein distance (Euclidean ground metric, |d-b|/sqrt2 to the diagonal) computed from coordinate differences"""
+    from scipy.optimize import linear_sum_assignment
+    n, m = len(A), len(B)
+    if n + m == 0:
+        return 0.0
+    D = np.zeros((n + m, n + m))
+    for i in range(n):
+        for j in range(m):
+            D[i, j] = math.hypot(A[i][0] - B[j][0], A[i][1] - B[j][1])
+        D[i, m:] = abs(A[i][1] - A[i][0]) / math.sqrt(2.0)
+    for j in range(m):
+        D[n:, j] = abs(B[j][1] - B[j][0]) / math.sqrt(2.0)
+    r, c = linear_sum_assignment(D)
+    return float(D[r, c].sum())
+
+
+def w1(A, B):
+    """reference W1: persim's wasserstein where it is accurate (it loses small distances at large coordinates through
+    sklearn's expanded |x|^2+|y|^2-2xy, and is only meant for points with death >= birth), else the difference-based value"""
+    own, per = w1_own(A, B), w1_persim(A, B)
+    if abs(own - per) <= 1e-9 * abs(own) + 1e-300:
+        STATS["w1_reference_persim"] += 1
+        return per, "persim"
+    STATS["w1_reference_own"] += 1
+    return own, "own"
 
 
 # ----------------------------------------------------------------------------- generators
@@ -128,7 +159,7 @@ def gen_pair(ctx, nmax):
         r.shuffle(B)
     elif kind == "near":
         eta = r.choice([1e-3, 1e-6, 1e-9, 1e-12])
-        B = [[p[0] * (1 + eta * r.uniform(-1, 1)), p[1] * (1 + eta * r.uniform(-1, 1))] for p in A]
+        B = [sorted([p[0] * (1 + eta * r.uniform(-1, 1)), p[1] * (1 + eta * r.uniform(-1, 1))]) for p in A]   # keeps birth <= death
     elif kind == "empty1":
         A, B = [], gen_dgm(ctx, nmax)
     elif kind == "empty2":
@@ -195,9 +226,9 @@ def eval_case(c):
         slack = TOL * (scale_of(A, B, C) + 1e-300)
         return v <= x + y + slack, {"sw(A,B)": v, "sw(A,C)": x, "sw(C,B)": y, "slack": slack}
     if k == "w1":
-        w = w1(A, B)
+        w, which = w1(A, B)
         slack = TOL * sc + 1e-9 * abs(w)
-        return v <= 2.0 * w + slack, {"sw": v, "2*W1": 2.0 * w, "slack": slack}
+        return v <= 2.0 * w + slack, {"sw": v, "2*W1": 2.0 * w, "W1 reference": which, "slack": slack}
     raise common.HarnessError("unknown case kind %r" % k)
 
 
@@ -264,7 +295,7 @@ def run(ctx):
         ([[1.0, 2.0], [1.0, 2.0]], [[1.0, 2.0]], 2), ([[0.11371516, 4.45734882]], [[0.11371516, 4.45734882]], 50),
     ]
     cases, lines = [], []
-    n = ctx.n(500, 9000)
+    n = ctx.n(1500, 16000)
     dcache = {}
     for i in range(n + len(corpus)):
         if i < len(corpus):
@@ -320,7 +351,7 @@ def run(ctx):
 def laws(ctx, nmax):
     """[T] the laws of the statement and the definition itself on the real code"""
     r = ctx.rng
-    for i in range(ctx.n(260, 4500)):
+    for i in range(ctx.n(800, 8000)):
         A, B, kind = gen_pair(ctx, min(nmax, 12))
         C = gen_dgm(ctx, min(nmax, 12))
         if r.random() < 0.5:
@@ -336,6 +367,7 @@ def laws(ctx, nmax):
                 fail(ctx, "sliced Wasserstein law `%s` fails on the real code" % lc["kind"], lc, info, law=True)
                 if len(ctx.violations) > 5:
                     return
+    ctx.extra["w1_reference"] = dict(STATS)
 
 
 def replay(ctx, rep):
